@@ -214,10 +214,9 @@ T("Buchstabe_An_Text_Fügen", "Buchstabe_An_Text_Fügen", ["T", "B"], None, "Fü
 
 
 def _tein(t, i, e):
-    # "Fügt einen Text in einen anderen an dem gegebenen Index ein." -- an index of the text: 1..len
-    if 1 <= i <= len(t):
-        return ok(None, t[:i - 1] + e + t[i - 1:], i, e)
-    return None
+    # "Fügt ... vor dem gegebenen Index ein. Ein Index kleiner als 1 fügt am Anfang, ein Index größer als die Länge des Textes am Ende ein."
+    p = clamp(i, 1, len(t) + 1)
+    return ok(None, t[:p - 1] + e + t[p - 1:], i, e)
 
 
 T("Text_In_Text_Einfügen", "Text_In_Text_Einfügen", ["T", "Z", "T"], None, "Setze {2} an die Stelle {1} von {0}.", _tein, refs=[0])
@@ -264,19 +263,15 @@ T("Spalte_Text", {"v": "Spalte_Text", "x": "Spalte_Text"}, ["T", "T"], "TL", "({
 
 
 def _finde(t, s):
-    # "Gibt alle Indizes des gegebenen Subtextes im Text zurück." -- either reading (all occurrences, or the
-    # non-overlapping occurrences from the left) is accepted
+    # "Gibt alle Indizes des gegebenen Subtextes im Text zurück. Die Suche wird nach jedem Fund hinter dem Fund fortgesetzt"
     if not t or not s:
         return None
-    allocc = _occ(t, s)
     greedy, nxt = [], 1
-    for i in allocc:
+    for i in _occ(t, s):
         if i >= nxt:
             greedy.append(i)
             nxt = i + len(s)
-    from c17_ddp import ser
-    acc = {ser("ZL", allocc), ser("ZL", greedy)}
-    return ok(lambda printed: printed in acc, t, s)
+    return ok(greedy, t, s)
 
 
 T("Finde_Subtext", "Finde_Subtext", ["T", "T"], "ZL", "(alle Indizes vom Subtext {1} in {0})", _finde,
